@@ -23,8 +23,9 @@ def write_and_replay(prop, ob, rep, repo, replay_dir):
         "site_line": vc.site,
         "model": vc.model or {},
         "verifier_output": {"status": vc.status, "backend": vc.backend, "solver_s": round(vc.time, 3)},
-        "path_condition": [str(c)[:400] for c in vc.pc][:60],
-        "goal": str(vc.goal)[:2000],
+        "path_condition": vc.pc_strs,
+        "goal": vc.goal_str,
+        "smt2_head": vc.smt2_head,
         "repo": repo,
     }
     json.dump(data, open(path, "w"), indent=1, default=str)
